@@ -1084,10 +1084,11 @@ def normalize_fieldname(field_name: str) -> str:
 
 class DynamicFieldtypeModule:
     def __init__(self, path=""):
-        self.path = path
+        # not called `path`: an instance attribute of that name would shadow the whitelisted field type `path`
+        self._path = path
 
     def __getattr__(self, path):
-        path = (self.path + "." if self.path else "") + path
+        path = (self._path + "." if self._path else "") + path
 
         obj = WHITELIST_TREE
         for p in path.split("."):
@@ -1098,11 +1099,11 @@ class DynamicFieldtypeModule:
         return DynamicFieldtypeModule(path)
 
     def gettypename(self):
-        if fieldtype(self.path):
-            return self.path
+        if fieldtype(self._path):
+            return self._path
 
     def __call__(self, *args, **kwargs):
-        t = fieldtype(self.path)
+        t = fieldtype(self._path)
 
         return t(*args, **kwargs)
 
